@@ -238,6 +238,7 @@ def run_in_files(src):
         # braces INSIDE a tag that is not wholly an {expression}: plain tag text (never a template filled by attribute / index traversal)
         'tag_text_with_braces': f'[R]\nlet: v = description\nmatch: True\ncategory: C\ntags: x-{{{src}}}-y, {{source}}-card, v{{v.__class__}}, m{{amount.__class__.__mro__}}, o{{orders.__class__.__base__.__subclasses__}}\n',
         'variable': f'v = {src}\n[R]\nmatch: v or True\ncategory: C\ntags: {{v}}\nfield: f = v\n',
+        'variable_in_let_rule': f'v = {src}\n[R]\nlet: w = 1\nmatch: True\ncategory: C\ntags: {{v}}, {{w}}\nfield: f = v\n',
         'transform': f'field.description = {src}\nfield.memo = {src}\n[R]\nmatch: True\ncategory: C\ntags: {{field.memo}}, {{description}}\n',
     }
     for ctxname, text in files.items():
